@@ -25,7 +25,12 @@ TVOp == /\ l <= Len(Rec) /\ Rec[l].ev = "op"
         /\ viol' = AddViol(viol, OpViol(Rec[l]), cur)
         /\ judged' = judged + 1 /\ l' = l + 1 /\ UNCHANGED <<ep, f, cur>>
 TVOther == /\ l <= Len(Rec) /\ Rec[l].ev = "end" /\ l' = l + 1 /\ UNCHANGED <<ep, f, viol, judged, cur>>
-TVNext == TVReset \/ TVFail \/ TVOp \/ TVOther
+\* the process under test was killed by a signal while this case ran (recorded by the driver; `begin` marks the letter that
+\* was in progress): judged like any other observation -- whatever the property, an input that kills the process breaks it
+TVCrashAny == /\ l <= Len(Rec) /\ Rec[l].ev \in {"crash", "begin"}
+              /\ viol' = IF Rec[l].ev = "crash" THEN AddViol(viol, {"ANY/process-killed-by-signal-" \o Str(Rec[l].signal)}, Rec[l].id) ELSE viol
+              /\ l' = l + 1 /\ UNCHANGED <<ep, f, judged, cur>>
+TVNext == TVReset \/ TVFail \/ TVOp \/ TVOther \/ TVCrashAny
 TVSpec == TVInit /\ [][TVNext]_tvars
 Post == PostOK
 Report == ReportAt(l, judged, viol)
